@@ -617,6 +617,7 @@ package ro
 //@ loop RepeatWith$1$1#0
 //@   invariant 0 <= i && i <= count
 //@   iteration ensures count(source.SubscribeWithContext) == 1 && count(attempt.Wait) == 1 && before(source.SubscribeWithContext, attempt.Wait) && arg(source.SubscribeWithContext, 0) == subscriberCtx
+//@   iteration ensures count(destination.IsClosed) == 1 && before(attempt.Wait, destination.IsClosed) && !res(destination.IsClosed)
 
 //@ operator OnErrorResumeNextWith
 //@   props C15 C09
